@@ -459,6 +459,9 @@ def scenario_of(cont):
             protos = [a[1] for a in issues]
             if any(a[0] == "cancel" and a[1] < len(protos) and protos[a[1]] == "h2" for a in tr):
                 scn["abandon"] = "h2"
+        if w is not None and w.cont and any(r["connector"].state == "dropped" and getattr(r["connector"], "kept", False) and r["connector"] not in w.dials_started for r in w.reqs):
+            # an attempt that had not started yet was discarded with its cancelled request
+            return {"family": "pool_bg_unpolled", "cont": 1, "how": "cancel", "schedule": str(tr)}
         if w is not None and w.cont and any(k.state == "dropped" for k in w.dials_started):
             return {"family": "pool_bg_attempt", "cont": 1, "schedule": str(tr)}
         if w is not None and not w.cont and any(t["kind"] == "delayed" for t in w.bg):
@@ -486,7 +489,7 @@ def judge_bg(scn, out):
 def judge_sched(scn, out):
     if out.get("result", "").startswith(("panic", "crash")):
         return True
-    if scn.get("family") == "pool_bg_attempt":
+    if scn.get("family") in ("pool_bg_attempt", "pool_bg_unpolled"):
         return judge_bg(scn, out)
     claim = scn.get("claim", "")
     if "was dropped when it was released" in claim:
@@ -614,6 +617,8 @@ def obligations(prog, src, tier, seed, which="C03", n_req=2, depth=5, classes=("
             if w is not None:
                 own = [k for k in w.dials_started if k.req == 0]
                 r = w.reqs[0]
+                if not own and cont and getattr(r["connector"], "kept", False) and r["connector"].state == "dropped":
+                    return {"family": "pool_bg_unpolled", "cont": 1, "how": "preempt"}
                 served = r["state"] == "holding" and r.get("conn") is not None and r["conn"].cid == 50
                 if served and own and ((cont and own[0].state == "dropped") or (not cont and any(t["kind"] == "delayed" for t in w.bg))):
                     return {"family": "pool_bg_attempt", "cont": int(cont)}
@@ -646,7 +651,7 @@ def obligations(prog, src, tier, seed, which="C03", n_req=2, depth=5, classes=("
                     "doc": "the waiting request takes the released connection no later than its next poll, however often it was polled before",
                     "run": run_preempt, "check": check_preempt, "crosscheck": False,
                     "cex_extract": extract_preempt,
-                    "judge": lambda scn, out: out.get("result", "").startswith(("panic", "crash")) or (judge_bg(scn, out) if scn.get("family") == "pool_bg_attempt" else out.get("r1") == "timeout")})
+                    "judge": lambda scn, out: out.get("result", "").startswith(("panic", "crash")) or (judge_bg(scn, out) if scn.get("family") in ("pool_bg_attempt", "pool_bg_unpolled") else out.get("r1") == "timeout")})
     if "C14" in classes or "C04" in classes:
         def run_chain(ctx):
             cont = ctx.choose([(True, False), (True, True)], "continue_after_preemption")
